@@ -178,24 +178,13 @@ Proof.
     destruct (_ && _); [|inversion H; subst; discriminate]. inversion H; subst s'. simpl msgs.
     unfold active. rewrite count_st_app. fold (active l2) (active news). rewrite Anews.
     unfold room in Er. assert (Hm : (0 <? c_max_depth c) = true) by (apply Z.ltb_lt; exact Hmax). rewrite Hm in Er.
-    destruct single.
-    + specialize (Hsingle eq_refl). rewrite Hsingle in Hlen. rewrite Hlen.
-      destruct (c_max_depth c <=? active l1) eqn:Ef.
-      * apply Z.leb_le in Ef. destruct (c_drop_oldest c); [|discriminate].
-        destruct (sql_victim (o_gone o) l1) as [v|] eqn:Ev; [|discriminate]. inversion Er; subst l2.
-        unfold remove_id, active. rewrite (count_remove is_active l1 [v] (inv_nodup _ _ I1)).
-        -- fold (active l1). simpl length. fold s1 l1 in Hpre. lia.
-        -- constructor; [intros [] | constructor].
-        -- intros w [Hw | []]. subst w. destruct (sql_victim_spec _ _ _ Ev) as [m [A [B Cq]]]. exists m.
-           split; [exact A|]. split; [exact B | apply queued_is_active; exact Cq].
-      * apply Z.leb_gt in Ef. inversion Er; subst l2. simpl. lia.
-    + destruct (c_drop_oldest c).
-      * destruct (sql_make_room_exact _ _ _ _ _ _ (inv_nodup _ _ I1) Er) as [vs [E2 [Q [NDv Len]]]]. subst l2.
-        unfold active. fold l1. rewrite (count_remove is_active l1 vs (inv_nodup _ _ I1) NDv).
-        -- fold (active l1). lia.
-        -- intros v Hv. destruct (Q v Hv) as [m [A [B Cq]]]. exists m. split; [exact A|]. split; [exact B | apply queued_is_active; exact Cq].
-      * destruct (c_max_depth c <? active l1 + Z.of_nat (length ies)) eqn:Ef; [discriminate|]. inversion Er; subst l2.
-        apply Z.ltb_ge in Ef. lia.
+    destruct (c_drop_oldest c).
+    + destruct (sql_make_room_exact _ _ _ _ _ _ (inv_nodup _ _ I1) Er) as [vs [E2 [Q [NDv Len]]]]. subst l2.
+      unfold active. fold l1. rewrite (count_remove is_active l1 vs (inv_nodup _ _ I1) NDv).
+      * fold (active l1). lia.
+      * intros v Hv. destruct (Q v Hv) as [m [A [B Cq]]]. exists m. split; [exact A|]. split; [exact B | apply queued_is_active; exact Cq].
+    + destruct (c_max_depth c <? active l1 + Z.of_nat (length ies)) eqn:Ef; [discriminate|]. inversion Er; subst l2.
+      apply Z.ltb_ge in Ef. lia.
 Qed.
 
 (** ** nothing but an enqueue or an operator requeue/resume raises the number of active messages *)
